@@ -439,10 +439,10 @@ def concrete_rules(ctx: Any, repo: Repo, tier: str, member: Optional[str] = None
             bad = limit_violations(t, k)
             ctx.check(not bad, limit, w, "TypedDicts appear only with a positive limit, with at least one and at most `limit` keys", construct=f"{lab}: {'; '.join(bad)}")
     ws = f"{TY}.shrink_types"
-    ks = (0, 1, 2, 3) if tier == "thorough" else (0, 2)
+    ks = (0, 2, 3) if tier == "thorough" else (0, 2)
     vals = [v for v, k, _ in rows if k == ks[0]]
     by = {(id(v), k): t for v, k, t in rows}
-    sel = vals if tier == "thorough" else vals[6:40] + vals[-4:]
+    sel = vals[:70] + vals[-4:] if tier == "thorough" else vals[6:40] + vals[-4:]
     m = 0
     for a, b in itertools.combinations(sel, 2):
         for k in ks:
@@ -465,7 +465,7 @@ def concrete_rules(ctx: Any, repo: Repo, tier: str, member: Optional[str] = None
                 ctx.check(not bad, limit, ws, "merged TypedDicts stay within the limit", construct=f"{lab}: {'; '.join(bad)}")
             if order:
                 t2 = merge(repo, (tb, ta), k)
-                t3 = merge(repo, (ta, tb, ta), k)
+                t3 = merge(repo, (ta, tb, ta), k) if (m % 3 == 0 or tier != "thorough") else t1
                 ctx.check(canon(t1) == canon(t2) == canon(t3), order, ws, "the merged type does not depend on the order or multiplicity of the observations",
                           construct=f"{lab}; reversed {short(t2)}; with a duplicate {short(t3)}")
     rid = member or tightness or limit or order
